@@ -199,6 +199,8 @@ def _oracle_stream(ctx, G, OFF, only, rterms, rinfo):
                   "truncate", "flip", "mix"]
         if i < len(FORCED):
             scenario = FORCED[i]
+        if i in (6, 7):
+            fmt = "sdmf" if i == 6 else "mdmf"
         if scenario == "offset-forgery":
             # needs at least k shares to forge AND at least k left intact
             k, N = r.choice([(1, 3), (2, 4), (2, 5), (3, 6), (1, 2)])
@@ -317,6 +319,11 @@ def _oracle_stream(ctx, G, OFF, only, rterms, rinfo):
                 victims = shs[:nvict]
                 oix = r.randrange(6)
                 odelta = r.choice([1, 1, -1, 7, 32, -32])
+                if i in (6, 7):
+                    # in every run: the offset that delimits the share hash chain without touching the signature (SDMF: its end,
+                    # slot 2 = block_hash_tree; MDMF: its start, slot 1 = share_hash_chain), moved by one byte so that the chain
+                    # is no longer a whole number of (index, hash) entries
+                    oix, odelta = (2 if fmt == "sdmf" else 1), 1
                 case["forged_offset"] = ["signature", "share_hash_chain", "block_hash_tree", "share_data", "enc_privkey", "EOF"][oix]
                 case["delta"] = odelta
             for sh in victims:
